@@ -101,3 +101,53 @@ Proof.
   replace (S (S (S (List.length r))) + 2)%nat with (1 * 3 + (List.length r + 2))%nat by lia.
   rewrite Nat.div_add_l by lia. lia.
 Qed.
+
+(* ------------------------------------------------------------------------------------------ *)
+(* the round trip with the concrete codec, and: the decoder only ever sees canonical input      *)
+From S2T Require Import C05.Roundtrip.
+
+Lemma b64enc_canonical : forall b, forallb is_byte b = true -> b64_canonical (b64enc b) = true.
+Proof. intros b H. unfold b64_canonical. rewrite (b64_roundtrip b H). reflexivity. Qed.
+
+Theorem roundtrip_any_lenient_decoder :
+  forall (dec' : str -> option bytes) (isspace : N -> bool) (R : registry),
+    (forall t, b64_canonical t = true -> dec' t = b64dec t) -> registry_wf R = true ->
+    forall c fl, let v := VData c fl in
+      has_type isspace R v TAny = true -> keys_not_markers v = true -> no_other v = true -> bytes_ok v = true ->
+      exists w, pipeline b64enc dec' isspace R v = Some w /\ w = canon v
+                /\ to_json b64enc w = to_json b64enc v /\ class_of w = Some c
+                /\ (dict_keys_distinct v = true -> payloads w = payloads v)
+                /\ (forall b, serialize b64enc b w = serialize b64enc b v).
+Proof.
+  intros dec' isspace R Hagree Rwf c fl v H K Nn B.
+  assert (law : forall b, forallb is_byte b = true -> dec' (b64enc b) = Some b).
+  { intros b Hb. rewrite (Hagree _ (b64enc_canonical b Hb)). exact (b64_roundtrip b Hb). }
+  exact (roundtrip_pipeline_ok b64enc dec' isspace R (forallb is_byte) law Rwf c fl H K Nn B).
+Qed.
+
+Theorem roundtrip_concrete_codec :
+  forall (isspace : N -> bool) (R : registry), registry_wf R = true ->
+    forall c fl, let v := VData c fl in
+      has_type isspace R v TAny = true -> keys_not_markers v = true -> no_other v = true -> bytes_ok v = true ->
+      exists w, pipeline b64enc b64dec isspace R v = Some w /\ w = canon v
+                /\ to_json b64enc w = to_json b64enc v /\ class_of w = Some c
+                /\ (dict_keys_distinct v = true -> payloads w = payloads v)
+                /\ (forall b, serialize b64enc b w = serialize b64enc b v).
+Proof.
+  intros isspace R Rwf c fl v H K Nn B.
+  exact (roundtrip_any_lenient_decoder b64dec isspace R (fun t _ => eq_refl) Rwf c fl H K Nn B).
+Qed.
+
+Lemma from_json_value_error : forall dec isspace R j,
+  from_json_outcome dec isspace R j = OValueError <->
+  (is_object j = false \/ exists kvs, j = JObj kvs /\ has_key K_TYPE kvs = false).
+Proof.
+  intros dec isspace R j. split.
+  - destruct j; cbn [from_json_outcome is_object]; intro H; try (left; reflexivity).
+    destruct (has_key K_TYPE kvs) eqn:E.
+    + destruct (from_json dec isspace R (JObj kvs)); discriminate H.
+    + right. exists kvs. split; [reflexivity | exact E].
+  - intros [H | [kvs [-> E]]].
+    + destruct j; cbn [is_object] in H; try reflexivity. discriminate H.
+    + cbn [from_json_outcome]. rewrite E. reflexivity.
+Qed.
